@@ -156,8 +156,8 @@ def specG (op w : Nat) (sg : Bool) (a b c r : UInt64) : Verdict :=
     else if fOk || (cOk && cRep) then bad else na
   | 6 => if a == 0 then chk (r == 0) else chk (rv == Spec.floorPow2 x w)
   | 7 => chk (rv == Spec.lowestSet x 0 w)
-  | 11 => if sg && X < 0 then na else chk (rv == Spec.mask w x.toNat w)
-  | 12 => if !pos then na else chk (R == Spec.highestBit x w)
+  | 11 => if sg && X < 0 then na else chk (rv == Spec.mask w x w)
+  | 12 => if !pos then na else chk (R == (Spec.highestBit x w).toInt)
   | 13 =>
     if X < 0 then na else
     let f := Spec.fact X.toNat
@@ -183,11 +183,11 @@ def specG (op w : Nat) (sg : Bool) (a b c r : UInt64) : Verdict :=
   | 19 => if M ≤ 0 then na else chk ((r == 1) == (X.emod M == 0))
   | 20 =>
     let n := (bv 32 b).toInt
-    if n < 1 then na else chk ((bv 32 r).toInt == Spec.findNSB x n.toNat)
+    if n < 1 then na else chk (bv 32 r == Spec.findNSB x (bv 32 b))
   | 21 | 22 =>
     let s := (bv 32 b).toInt
     if s < 0 || s > w then na else
-    let right := Spec.rotr x s.toNat w; let left := Spec.rotl x s.toNat w
+    let right := Spec.rotr x (bv 32 b) w; let left := Spec.rotl x (bv 32 b) w
     let want := if op == 21 then right else left
     let other := if op == 21 then left else right
     if rv == want then ok
@@ -197,7 +197,7 @@ def specG (op w : Nat) (sg : Bool) (a b c r : UInt64) : Verdict :=
   | 23 | 24 =>
     let f := (bv 32 b).toInt; let n := (bv 32 c).toInt
     if f < 0 || n < 0 || f + n > w || f ≥ w then na else
-    chk (rv == (if op == 23 then Spec.fillOne x f.toNat n.toNat else Spec.fillZero x f.toNat n.toNat))
+    chk (rv == (if op == 23 then Spec.fillOne x (bv 32 b) (bv 32 c) else Spec.fillZero x (bv 32 b) (bv 32 c)))
   | _ => na
 
 def specF (op : Nat) (a b c d r r2 : UInt64) : Verdict :=
@@ -213,7 +213,7 @@ def specF (op : Nat) (a b c d r r2 : UInt64) : Verdict :=
   | 33 => chk (r == Spec.gather2 0 a 8 && r2 == Spec.gather2 1 a 8)
   | 34 => chk (r == Spec.gather2 0 a 16 && r2 == Spec.gather2 1 a 16)
   | 35 => chk (r == Spec.gather2 0 a 32 && r2 == Spec.gather2 1 a 32)
-  | 36 => chk ((r.toNat : Int) == Spec.nlz (bv 32 a))
+  | 36 => chk (bv 32 r == Spec.nlz (bv 32 a))
   | 37 => chk (Spec.isSqrt (a.toNat : Int) (r.toNat : Int))
   | 38 => let X := (bv 32 a).toInt; if X < 0 then na else chk (Spec.isSqrt X (bv 32 r).toInt)
   | 39 => chk ((r.toNat) == (a.toNat ^ b.toNat) % 4294967296)
